@@ -222,7 +222,7 @@ def main(argv=None):
         print("MISS", b["function"], json.dumps(b["args"])[:160], "\n    cpython:", json.dumps(b["cpython"])[:300], "\n    summary allows:", json.dumps(b["summary"])[:300])
     print(f"G7 summary conformance: functions={res['functions']} ok={res['ok']} miss={res['miss']} engine_errors={res['engine_errors']} wall={res['wall_s']}s")
     if not args.only:
-        json.dump({k: v for k, v in res.items() if k != "examples"}, open(os.path.join(HERE, "evidence", "selftest_G7.json"), "w"), indent=1)
+        json.dump({k: v for k, v in res.items() if k != "examples"}, open(os.path.join(HERE, "selftest", "results", "G7.json"), "w"), indent=1)
     return 3 if res["miss"] or res["engine_errors"] else 0
 
 
